@@ -20,6 +20,8 @@ EXTENDS Integers, Sequences, FiniteSets, TLC, Json
 CONSTANTS Depth,
           BugGlobalFallback,   \* TRUE: ft_phase_screen draws from the global stream (what the property forbids)
           BugSharedInstance,   \* TRUE: all infinite screens share one module-level generator
+          BugCloneShares,      \* TRUE: a deep copy of a screen keeps drawing from the original's generator
+          Focus,               \* "all", or "objects": only instance actions (simulation that concentrates on instance isolation)
           Emit
 
 Params == {"A", "B", "A2"}           \* finite-screen parameter sets; N(A) = 4, N(B) = 6; A2 = A with r0 changed in the 6th digit
@@ -102,6 +104,22 @@ AddRow(o) ==
            /\ Log([a |-> "add_row", o |-> o, rows |-> obj[o].rows + 1, prov |-> << <<ObjStream(o), start, start + c.nx>> >>])
     /\ UNCHANGED <<glob, gen, nfresh>>
 
+\* copy.deepcopy(src) -> dst (twins only, so that dst's later rows are keyed like src's): dst is a screen instance of its own,
+\* with its own generator at the position src had reached
+Clone(src, dst) ==
+    /\ src # dst /\ obj[src].made /\ ~obj[dst].made /\ ObjCfg(src) = ObjCfg(dst)
+    /\ obj' = [obj EXCEPT ![dst] = IF BugCloneShares THEN [obj[src] EXCEPT !.made = TRUE] ELSE obj[src]]
+    /\ Log([a |-> "clone", o |-> dst, from |-> src, prov |-> <<>>])
+    /\ UNCHANGED <<glob, gen, nfresh>>
+\* (with BugCloneShares the copy's add_row advances the ORIGINAL's position too)
+AddRowShared(o) ==
+    /\ BugCloneShares /\ obj[o].made /\ \E src \in Objs : src # o /\ obj[src].made /\ ObjCfg(src) = ObjCfg(o)
+    /\ LET c == ObjCfg(o)
+           src == CHOOSE x \in Objs : x # o /\ obj[x].made /\ ObjCfg(x) = ObjCfg(o)
+       IN  /\ obj' = [obj EXCEPT ![o].rows = @ + 1, ![src].pos = @ + c.nx]
+           /\ Log([a |-> "add_row", o |-> o, rows |-> obj[o].rows + 1, prov |-> << <<ObjStream(o), obj[src].pos, obj[src].pos + c.nx>> >>])
+    /\ UNCHANGED <<glob, gen, nfresh>>
+
 \* ---- everything else
 Unrelated(f) == /\ Log([a |-> "unrelated", f |-> f, prov |-> <<>>]) /\ UNCHANGED <<glob, gen, obj, nfresh>>
 GlobalUser ==   \* optimal_grouping: numpy.random.choice on the global stream
@@ -116,9 +134,10 @@ GlobalDraw ==
 
 Next ==
     /\ Len(hist) < Depth
-    /\ \/ \E p \in Params, s \in IntSeeds : FtInt(p, s) \/ FtShInt(p, s)
-       \/ \E p \in Params : FtNone(p) \/ FtGen(p) \/ FtShNone(p) \/ FtShGen(p)
-       \/ \E o \in Objs : NewScreen(o) \/ AddRow(o)
+    /\ \/ Focus = "all" /\ \E p \in Params, s \in IntSeeds : FtInt(p, s) \/ FtShInt(p, s)
+       \/ Focus = "all" /\ \E p \in Params : FtNone(p) \/ FtGen(p) \/ FtShNone(p) \/ FtShGen(p)
+       \/ \E o \in Objs : NewScreen(o) \/ (IF BugCloneShares /\ o = "o2" THEN AddRowShared(o) ELSE AddRow(o))
+       \/ \E o, o2 \in Objs : Clone(o, o2)
        \/ \E f \in 1..2 : Unrelated(f)
        \/ GlobalUser \/ GlobalDraw \/ \E x \in {5} : GlobalSeed(x)
 Spec == Init /\ [][Next]_vars
